@@ -690,10 +690,19 @@ func (tm *Termer) tryInline(fn *ssa.Function, c *ssa.CallCommon) *Term {
 // TermOfCall computes the canonical term the call fn(args...) would have at a call
 // site (inlined when fn is a simple in-repository function, exactly as Termer does).
 func (w *World) TermOfCall(fn *ssa.Function, args ...*Term) *Term {
+	return w.termOfCall(fn, false, args...)
+}
+
+// TermOfCallAny is TermOfCall for functions of loaded dependency packages as well.
+func (w *World) TermOfCallAny(fn *ssa.Function, args ...*Term) *Term {
+	return w.termOfCall(fn, true, args...)
+}
+
+func (w *World) termOfCall(fn *ssa.Function, anyPkg bool, args ...*Term) *Term {
 	if fn == nil {
 		return &Term{Op: "opaque", Name: "missing-func"}
 	}
-	if fn.Blocks != nil && fn.Pkg != nil && strings.HasPrefix(fn.Pkg.Pkg.Path(), modPath) &&
+	if fn.Blocks != nil && fn.Pkg != nil && (anyPkg || strings.HasPrefix(fn.Pkg.Pkg.Path(), modPath)) &&
 		fn.Signature.Results().Len() == 1 && len(fn.Blocks) == 1 && fn.Recover == nil {
 		var ret *ssa.Return
 		n := 0
